@@ -75,6 +75,42 @@ histories  over {C, H, CO}, centres {C, CO}) with fixed roles: 8 held by
            dictionary model of the history.  Observation happens only at the
            end of a history (every prefix is a history of its own), so the
            judge's own look-ups are never part of what is judged.
+
+Fifth-wave families (domains in mc/domains/w5_c19.py):
+Pieces   : a text is the centre followed by counted PIECES; the group it
+           denotes has of every name the SUM of the counts of its pieces.
+           Count alphabet {0, 1, 2, 3} (zero = "none of these"), every count
+           in every written form: none (count 1), `c`, `(c)`, `0c` (leading
+           zero; for zero `0`, `(0)`, `00`).  Every sequence of <= 3 pieces
+           over {C, H, C[d]} x centres {C, N[A]} (thorough: also every
+           4-piece sequence over {C, H}) through Group.parse(), judged like
+           any other spelling.
+Punctuation: a third alphabet - names with characters that mean something
+           to string formatting, regular expressions or the count syntax
+           (%, %%, %d, %s, X%, {}, {0}, \\1, C*, C., H2, 2H; centres C, H2,
+           %s, X%) - goes through the same machinery: every multiset of <= 3
+           (quick) / <= 4 (thorough) peripherals, every ordering, every
+           run-length spelling, through Group() and Group.parse(); all
+           ordered pairs of identities with <= 2 peripherals (centres C, %s);
+           every identity with <= 2 peripherals (names without a backslash)
+           as a key of a synthetic library file.
+Defined  : ONE library file that defines one identity twice under two
+twice      different spellings.  Every identity of 1..2 peripherals over
+           {C, H, C[d]} x centres {C, N[A]} (thorough: also 3 peripherals
+           over {C, H}, first layout only), EVERY ordered pair of different
+           spellings of it (all orderings x all run-length spellings), three
+           file layouts (the two definitions adjacent, another entry between
+           them, another entry before them).  Two spellings of one identity
+           are one library key, so whatever the loader does with an entry
+           that is defined twice (this tree: refuses the file with KeyError)
+           it must do for every pair of spellings alike: the outcome
+           (refused + exception type / accepted + which datum was kept) is
+           compared with that of the first pair of the same identity and
+           layout; an accepted file must hold one entry that all spellings
+           index.  Control for the other direction: every ordered pair of
+           DIFFERENT identities (<= 2 peripherals, same centre) that differ
+           in one peripheral or one count, defined in one file, must load as
+           two entries.
 """
 import collections
 import copy
@@ -90,6 +126,7 @@ from .. import VERIF
 from ..runner import Result
 from ..domains import w3_c19 as W3
 from ..domains import w4_c19 as W4
+from ..domains import w5_c19 as W5
 
 LEVEL = 'exploration'
 CENTRES = ['C', 'CO', 'C[d]', 'Pt', 'N[A]']
@@ -102,8 +139,18 @@ AFTER_SHARDS = 6
 EDIT_SHARDS = 4
 CASE_PAIR_SHARDS = 2
 LH_SHARDS = {'quick': 4, 'thorough': 16}
+PUNCT_PAIR_SHARDS = 2
+DUP_SHARDS = 6
 PROTOCOLS = [0, 2, pickle.HIGHEST_PROTOCOL]
 READER_SEEDS = ['101', '202', '303']    # two of them, never this process's
+
+
+def _n_near_pairs():
+    return len(W5.near_pairs([
+        (c, ms) for c in W5.DUP_CENTRES for k in range(W5.DUP_K + 1)
+        for ms in itertools.combinations_with_replacement(W5.DUP_PERIPH, k)]))
+
+
 BOUND = {t: 'multisets of <= %d peripherals over %d names x %d centres; all '
             'orderings; all run-length spellings; all ordered pairs of '
             'identities with <= %d peripherals compared directly; one peripheral '
@@ -124,7 +171,17 @@ BOUND = {t: 'multisets of <= %d peripherals over %d names x %d centres; all '
             'two-call histories; %d library histories (all sequences of <= '
             '%d operations from an alphabet of %d on one library object) x '
             '%d ways of making the library, each followed by look-ups of %d '
-            'identities under 6 forms of key'
+            'identities under 6 forms of key; counted pieces: every text of '
+            '<= %d pieces (name over %s, count over %s, every written form of '
+            'the count incl. zero counts and leading zeros) x centres %s%s; '
+            'punctuation alphabet (%d peripherals %s x %d centres %s): '
+            'multisets of <= %d peripherals in all orderings and spellings, '
+            'all ordered pairs of identities with <= %d peripherals (centres '
+            '%s), the latter (names without a backslash) as keys of a library '
+            'file; one identity defined twice in one library file: %d '
+            'identities (1..%d peripherals over %s x centres %s%s) x every '
+            'ordered pair of different spellings x %d file layouts, and %d '
+            'ordered pairs of near identities defined in one file'
             % (KMAX[t], len(PERIPH), len(CENTRES), PAIRMAX[t],
                len(W3.failing_calls()), W3.FAIL_GOOD_MAX,
                len(AFTER_CENTRES) * 2 * sum(
@@ -138,7 +195,22 @@ BOUND = {t: 'multisets of <= %d peripherals over %d names x %d centres; all '
                len(W4.MUT_ROUTES), len(W4.MUT_OPS),
                sum(len(W4.LH_OPS) ** L for L in range(W4.LH_LEN[t] + 1)),
                W4.LH_LEN[t], len(W4.LH_OPS), len(W4.LH_ROUTES),
-               len(W4.lh_universe()))
+               len(W4.lh_universe()),
+               W5.PIECE_MAX, '/'.join(W5.PIECE_PERIPH),
+               '/'.join(map(str, W5.PIECE_COUNTS)),
+               '/'.join(W5.PIECE_CENTRES),
+               ' and every text of %d pieces over %s' % (
+                   W5.PIECE_MAX_T, '/'.join(W5.PIECE_PERIPH[:2]))
+               if t == 'thorough' else '',
+               len(W5.PUNCT_PERIPH), ' '.join(W5.PUNCT_PERIPH),
+               len(W5.PUNCT_CENTRES), ' '.join(W5.PUNCT_CENTRES),
+               W5.KPUNCT[t], W5.PUNCT_PAIRMAX,
+               ' '.join(W5.PUNCT_PAIR_CENTRES),
+               len(W5.dup_idents(t)), W5.DUP_K, '/'.join(W5.DUP_PERIPH),
+               '/'.join(W5.DUP_CENTRES),
+               '; 3 peripherals over %s, first layout only' % '/'.join(
+                   W5.DUP_PERIPH_T) if t == 'thorough' else '',
+               len(W5.DUP_LAYOUTS), _n_near_pairs())
          for t in KMAX}
 RULE = ('every (centre, ordering, run-length spelling) over the stated '
         'alphabets is constructed through Group(...) (list, tuple, one-shot iterator, '
@@ -160,7 +232,12 @@ RULE = ('every (centre, ordering, run-length spelling) over the stated '
         'library history (operations on one library object, then every '
         'identity of a 20-member universe looked up under 6 forms of key '
         'and compared with a dictionary model) is non-trivial when it '
-        'contains an Update')
+        'contains an Update; a counted-pieces text is non-trivial when it '
+        'holds a count form the run-length family does not write (a zero '
+        'count, a leading zero, `(1)`); the punctuation alphabet goes '
+        'through the same enumeration with the same rule; every file that '
+        'defines one identity twice under two different spellings, and '
+        'every file that defines two near identities, is non-trivial')
 ASSUMPTIONS = ['CPython dict/hash semantics', 'PyYAML for the library file',
                'statement is silent about malformed names: not judged '
                '(but what is built AFTER such a call is judged)',
@@ -175,7 +252,16 @@ ASSUMPTIONS = ['CPython dict/hash semantics', 'PyYAML for the library file',
                'datum for a held identity, and replaces it with '
                'overwrite=True (the merge rule itself is C13\'s subject; '
                'here only that every form of key reaches the entry the '
-               'dictionary model holds)']
+               'dictionary model holds)',
+               'a repeat count of zero is a repeat-count spelling: the piece '
+               'contributes no peripheral; counts may carry leading zeros',
+               'the text syntax reserves only the two parentheses and '
+               'all-digit names; any other character may occur in a name',
+               'a library file that defines one identity twice: the '
+               'statement does not say what must happen, only (two spellings '
+               '= one key) that it cannot depend on the spellings; the '
+               'outcome is compared between spelling pairs, not with a '
+               'fixed expectation']
 
 
 def compositions(n):
@@ -241,6 +327,28 @@ def shards(tier, seed):
         out.append(('after-edit', i, EDIT_SHARDS))
     for i in range(LH_SHARDS[tier]):
         out.append(('library-history', i, LH_SHARDS[tier]))
+    # fifth wave
+    for c in W5.PIECE_CENTRES:
+        for L in range(W5.PIECE_MAX):
+            out.append(('pieces', c, L, None, None))
+        for first in W5.PIECE_PERIPH:
+            out.append(('pieces', c, W5.PIECE_MAX, first, None))
+        if tier == 'thorough':
+            for first in W5.PIECE_PERIPH[:2]:
+                out.append(('pieces', c, W5.PIECE_MAX_T, first,
+                            W5.PIECE_PERIPH[:2]))
+    for c in W5.PUNCT_CENTRES:
+        for k in range(0, W5.KPUNCT[tier] + 1):
+            if k <= 3:
+                out.append(('spell-punct', c, k, None))
+            else:
+                for first in W5.PUNCT_PERIPH:
+                    out.append(('spell-punct', c, k, first))
+    for i in range(PUNCT_PAIR_SHARDS):
+        out.append(('pairs-punct', i, PUNCT_PAIR_SHARDS))
+    out.append(('library-punct', None))
+    for i in range(DUP_SHARDS):
+        out.append(('library-dup', i, DUP_SHARDS))
     return out
 
 
@@ -343,7 +451,10 @@ def run_spell(R, centre, k, first, periph=None):
             if first is not None and seq[0] != first:
                 continue
             if canon is None:
-                canon = Group(None, centre, sorted(ms)).name
+                try:
+                    canon = Group(None, centre, sorted(ms)).name
+                except Exception:       # noqa  (_check_one reports it)
+                    canon = ''
             R.evals += 4
             for how in ('ctor', 'ctor-tuple', 'ctor-iterator', 'ctor-generator'):
                 _check_one(R, Group, centre, ms, seq, None, how)
@@ -968,6 +1079,174 @@ def run_library_histories(R, i, n, tier):
                      limit=1)
 
 
+
+# ------------------------------------------------- fifth wave
+
+def run_pieces(R, centre, npieces, first, names):
+    """Counted pieces (zero counts, leading zeros, every count form): the
+    group denoted has of every name the sum of the counts of its pieces."""
+    from pgradd.GroupAdd.Group import Group
+    for text, seq, new in W5.piece_texts(centre, npieces, names, first):
+        R.evals += 1
+        if new:
+            R.nontrivial += 1
+        _check_one(R, Group, centre, tuple(sorted(seq)), seq, text, 'parse')
+        R.sample(dict(identity=str(ident(centre, seq)), text=text), limit=2)
+
+
+def _punct_lib_idents():
+    return W5.punct_idents(W5.PUNCT_PAIRMAX, periph=W5.PUNCT_LIB_PERIPH)
+
+
+def _dup_env(d):
+    import pgradd.ThermoChem   # noqa registers the property set
+    with open(os.path.join(d, 'scheme.yaml'), 'w') as f:
+        f.write(SCHEME)
+
+
+def _load_entries(d, entries):
+    from pgradd.GroupAdd.Library import GroupLibrary
+    path = os.path.join(d, 'library.yaml')
+    with open(path, 'w') as f:
+        f.write('groups:\n' + ''.join(
+            '  %r:\n    thermochem:\n      ND_H_ref: %r\n' % (text, val)
+            for text, val in entries))
+    return GroupLibrary.Load(path)
+
+
+def _dup_outcome(d, centre, ms, layout, pair):
+    """Load a file that defines the identity (centre, ms) twice, spelled
+    pair[0] then pair[1] (two different texts).  Returns (outcome signature,
+    [problems that need no comparison with another file])."""
+    from pgradd.GroupAdd.Group import Group
+    entries = W5.dup_entries(layout, pair[0], pair[1], centre)
+    try:
+        lib = _load_entries(d, entries)
+    except Exception as e:      # noqa
+        return 'refused:' + type(e).__name__, []
+    probs = []
+    try:
+        canon = Group(None, centre, sorted(ms))
+        keys = [('canonical object', canon), ('canonical name', canon.name),
+                ('first spelling parsed', Group.parse(None, pair[0])),
+                ('second spelling parsed', Group.parse(None, pair[1]))]
+        got = []
+        for label, key in keys:
+            if key not in lib:
+                probs.append('file accepted but %s not in lib' % label)
+                got.append(None)
+            else:
+                got.append(lib[key]['thermochem'].ND_H_ref)
+        if len(set(got)) != 1:
+            probs.append('file accepted but the spellings of one identity '
+                         'index different entries (%r)' % (got,))
+        if len(lib) != len(entries) - 1:
+            probs.append('file accepted with %d entries for %d identities'
+                         % (len(lib), len(entries) - 1))
+        winner = {W5.DUP_VALUES[0]: 'first definition kept',
+                  W5.DUP_VALUES[1]: 'second definition kept'}.get(
+                      got[0], 'neither datum kept')
+    except Exception as e:      # noqa
+        probs.append('file accepted, look-up raised %s: %s'
+                     % (type(e).__name__, e))
+        winner = 'look-up raised'
+    return 'accepted:' + winner, probs
+
+
+def _dup_one(R, d, centre, ms, layout, pair, ref, ref_outcome=None):
+    """One ordered pair of spellings against the reference pair of the same
+    identity and layout: what the loader does with an entry defined twice
+    must not depend on how the two definitions are spelled."""
+    if ref_outcome is None:
+        ref_outcome = _dup_outcome(d, centre, ms, layout, ref)[0]
+    outcome, probs = _dup_outcome(d, centre, ms, layout, pair)
+    R.outcomes['one identity defined twice in a file: %s (judged for '
+               'uniformity)' % outcome] += 1
+    wit = dict(kind='library-dup', centre=centre, multiset=list(ms),
+               layout=layout, pair=list(pair), ref=list(ref))
+    if outcome != ref_outcome:
+        R.violation('library-dup:outcome depends on the spelling',
+                    '%s defined twice in one file (%s): spelled %r then %r '
+                    'the file is %s, spelled %r then %r it is %s'
+                    % (ident(centre, ms), layout, pair[0], pair[1], outcome,
+                       ref[0], ref[1], ref_outcome), wit)
+    if probs:
+        R.violation('library-dup:' + probs[0][:50],
+                    '%s defined twice in one file (%s) as %r then %r: %s'
+                    % (ident(centre, ms), layout, pair[0], pair[1],
+                       '; '.join(probs)), wit)
+    return outcome
+
+
+def _two_entries_one(R, d, a, b, texts):
+    """Control: two DIFFERENT identities that differ in one peripheral or one
+    count are two entries; the file must load and keep both."""
+    from pgradd.GroupAdd.Group import Group
+    vals = W5.DUP_VALUES[:2]
+    probs = []
+    try:
+        lib = _load_entries(d, list(zip(texts, vals)))
+        for (c, ms), val, text in zip((a, b), vals, texts):
+            for label, key in [('canonical object', Group(None, c, sorted(ms))),
+                               ('spelling parsed', Group.parse(None, text))]:
+                if key not in lib or \
+                        lib[key]['thermochem'].ND_H_ref != val:
+                    probs.append('%s of %s does not index its own entry'
+                                 % (label, ident(c, ms)))
+        if len(lib) != 2:
+            probs.append('%d entries for 2 identities' % len(lib))
+    except Exception as e:      # noqa
+        probs.append('raised %s: %s' % (type(e).__name__, e))
+    R.outcomes['two-entries:%s' % ('ok' if not probs else 'bad')] += 1
+    if probs:
+        R.violation('library-two-entries:' + probs[0][:50].split(' of (')[0],
+                    'file defining %s as %r and %s as %r: %s' % (
+                        ident(*a), texts[0], ident(*b), texts[1],
+                        '; '.join(probs)),
+                    dict(kind='library-two-entries', a=[a[0], list(a[1])],
+                         b=[b[0], list(b[1])], texts=list(texts)))
+
+
+def dup_cases(tier):
+    """[(centre, ms, layout, [all spellings of the identity])]"""
+    out = []
+    for c, ms in W5.dup_idents(tier):
+        sp = []
+        for seq in distinct_perms(ms):
+            sp.extend(spellings(c, seq))
+        for layout in (W5.DUP_LAYOUTS if len(ms) <= W5.DUP_K
+                       else W5.DUP_LAYOUTS[:1]):
+            out.append((c, ms, layout, sp))
+    return out
+
+
+def run_library_dup(R, i, n, tier):
+    with tempfile.TemporaryDirectory(prefix='pgv_c19d_') as d:
+        _dup_env(d)
+        for c, ms, layout, sp in dup_cases(tier)[i::n]:
+            pairs = list(itertools.permutations(sp, 2))
+            ref = pairs[0]
+            ref_outcome = _dup_outcome(d, c, ms, layout, ref)[0]
+            for pair in pairs:
+                R.evals += 1
+                R.nontrivial += 1
+                _dup_one(R, d, c, ms, layout, pair, ref,
+                         ref_outcome=ref_outcome)
+            R.sample(dict(identity=str(ident(c, ms)), layout=layout,
+                          defined_twice_as=list(pairs[-1])), limit=1)
+        if i == 0:
+            ids = [(c, ms) for c in W5.DUP_CENTRES
+                   for k in range(W5.DUP_K + 1)
+                   for ms in itertools.combinations_with_replacement(
+                       W5.DUP_PERIPH, k)]
+            for a, b in W5.near_pairs(ids):
+                R.evals += 1
+                R.nontrivial += 1
+                _two_entries_one(R, d, a, b,
+                                 (W4.descending_text(*a),
+                                  W4._canonical_text(*b)))
+
+
 def run_shard(shard, tier):
     R = Result()
     if shard[0] == 'spell':
@@ -995,6 +1274,19 @@ def run_shard(shard, tier):
         run_after_isolated(R, shard[1], shard[2], 'after-edit')
     elif shard[0] == 'library-history':
         run_library_histories(R, shard[1], shard[2], tier)
+    elif shard[0] == 'pieces':
+        run_pieces(R, shard[1], shard[2], shard[3], shard[4])
+    elif shard[0] == 'spell-punct':
+        run_spell(R, shard[1], shard[2], shard[3], periph=W5.PUNCT_PERIPH)
+    elif shard[0] == 'pairs-punct':
+        run_pairs(R, shard[1], shard[2], tier,
+                  ids=W5.punct_idents(W5.PUNCT_PAIRMAX,
+                                      centres=W5.PUNCT_PAIR_CENTRES),
+                  big=W5.punct_idents(W5.KPUNCT[tier]))
+    elif shard[0] == 'library-punct':
+        run_library(R, tier, ids=_punct_lib_idents(), kind='library-punct')
+    elif shard[0] == 'library-dup':
+        run_library_dup(R, shard[1], shard[2], tier)
     else:
         run_malformed(R)
     return R
@@ -1038,6 +1330,18 @@ def replay(w):
     elif w['kind'] == 'library-history':
         with tempfile.TemporaryDirectory(prefix='pgv_c19l_') as d:
             _lh_one(R, _LibEnv(d), w['route'], [list(op) for op in w['ops']])
+    elif w['kind'] == 'library-punct':
+        run_library(R, 'quick', ids=_punct_lib_idents(), kind='library-punct')
+    elif w['kind'] == 'library-dup':
+        with tempfile.TemporaryDirectory(prefix='pgv_c19d_') as d:
+            _dup_env(d)
+            _dup_one(R, d, w['centre'], tuple(w['multiset']), w['layout'],
+                     tuple(w['pair']), tuple(w['ref']))
+    elif w['kind'] == 'library-two-entries':
+        with tempfile.TemporaryDirectory(prefix='pgv_c19d_') as d:
+            _dup_env(d)
+            _two_entries_one(R, d, (w['a'][0], tuple(w['a'][1])),
+                             (w['b'][0], tuple(w['b'][1])), w['texts'])
     else:
         run_library(R, 'quick')
     return dict(violates=bool(R.violations),
@@ -1074,13 +1378,29 @@ MANIFEST = dict(
          'libraries, refused and overwriting Update) is applied to one '
          'library object made by Load and by the constructor, after which '
          'all 20 identities of its universe are looked up under 6 forms of '
-         'key and compared with a dictionary model. Exhaustive inside the '
-         'bound.',
+         'key and compared with a dictionary model. Texts made of counted '
+         'pieces with counts 0..3 in every written form (none, digits, '
+         'bracketed digits, leading zero; <= 3 pieces over 3 names x 2 '
+         'centres, thorough also 4 pieces over 2 names) are parsed and '
+         'judged against the sum of the counts. A third alphabet of 12 '
+         'names with %, {}, backslash, *, . and digits (4 centres) goes '
+         'through the spelling enumeration (<= 3 quick / <= 4 thorough '
+         'peripherals), the pair comparison and the library file. Every '
+         'identity of 1..2 peripherals over 3 names x 2 centres is defined '
+         'twice in one library file under every ordered pair of different '
+         'spellings in 3 layouts; the loader\'s outcome must be the same '
+         'for all pairs, and an accepted file must hold one entry; files '
+         'defining two near identities must load as two entries. '
+         'Exhaustive inside the bound.',
     note='Names outside the alphabet and more than 6 peripherals are not '
          'covered; malformed names are enumerated but not judged (statement '
          'silent); construction histories longer than two calls, library '
          'histories longer than 3 / 4 operations or with data other than '
          'one number per group, edits of a group that is a library key, '
          'str subclasses that override comparison, and copies by other '
-         'serialisers are not covered.',
+         'serialisers are not covered. Non-ASCII names, names with quotes '
+         'or blanks, zero counts inside library files, counts above 3 with '
+         'leading zeros, an identity defined twice under the SAME text '
+         '(the YAML reader keeps the last) or across included files are '
+         'not covered.',
     ref='5/C19')
